@@ -1,6 +1,642 @@
-//! C13 — monitor not built yet.
-use crate::core::Ctx;
+//! C13 — fingerprints and key ids are the RFC-defined hashes, identical over all representations
+//! of a key, and are the values the library embeds in issuer / recipient fields.
+
+use std::io::Read;
+
+use pgp::composed::{
+    ArmorOptions, Deserializable, DetachedSignature, Message, MessageBuilder, SignedPublicKey,
+    SignedSecretKey,
+};
+use pgp::crypto::hash::HashAlgorithm;
+use pgp::crypto::sym::SymmetricKeyAlgorithm;
+use pgp::packet::{PacketHeader, PublicKey, PublicSubkey};
+use pgp::ser::Serialize;
+use pgp::types::{KeyDetails, KeyId, Password, Tag};
+use rand::{Rng, RngCore};
+use serde_json::json;
+
+use crate::core::{hexs, Ctx};
+use crate::rfc;
+use crate::rfc::frame::{deframe, frame, LenForm};
+use crate::rfc::key::RefPub;
+use crate::zoo::{self, Alg, Spec};
+
+fn kid(k: &KeyId) -> Vec<u8> {
+    k.as_ref().to_vec()
+}
+
+/// Compares the library's view of one key (given as KeyDetails) with the reference view of its
+/// serialised public key body.
+fn check_one(ctx: &mut Ctx, what: &str, pub_body: &[u8], fp: &[u8], id: &[u8], replay: &serde_json::Value) -> Option<RefPub> {
+    let Some((rp, n)) = RefPub::parse_prefix(pub_body) else {
+        ctx.inconclusive(format!("reference cannot parse public key body ({what})"));
+        return None;
+    };
+    if n != pub_body.len() {
+        ctx.inconclusive(format!("reference leaves trailing bytes in public key body ({what})"));
+        return None;
+    }
+    ctx.eval();
+    let vclass = format!("v{}", rp.version);
+    if rp.fingerprint() != fp {
+        ctx.violation(
+            format!("C13/fingerprint-mismatch/{vclass}/{what}"),
+            format!("fingerprint() = {} but RFC hash of the serialised key = {}", hex::encode(fp), hex::encode(rp.fingerprint())),
+            replay.clone(),
+        );
+    }
+    if rp.key_id() != id {
+        ctx.violation(
+            format!("C13/keyid-mismatch/{vclass}/{what}"),
+            format!("legacy_key_id() = {} but RFC key id = {}", hex::encode(id), hex::encode(rp.key_id())),
+            replay.clone(),
+        );
+    }
+    Some(rp)
+}
+
+fn body_len_class(n: usize) -> &'static str {
+    if n <= 255 {
+        "<=255"
+    } else if n <= 65535 {
+        "256..65535"
+    } else {
+        ">65535"
+    }
+}
+
+/// All checks on a full certificate produced by the library.
+fn check_cert(ctx: &mut Ctx, key: &SignedSecretKey, name: &str, with_messages: bool, idx: u64) {
+    let replay = json!({"key": name, "idx": idx});
+    let publ = key.to_public_key();
+
+    // ---- every representation of primary and subkeys agrees with the reference
+    let prim_body = match key.primary_key.public_key().to_bytes() {
+        Ok(b) => b,
+        Err(e) => {
+            ctx.inconclusive(format!("cannot serialise primary: {e}"));
+            return;
+        }
+    };
+    let fp = key.primary_key.fingerprint();
+    let id = key.primary_key.legacy_key_id();
+    let Some(rprim) = check_one(ctx, "secret-primary", &prim_body, fp.as_bytes(), &kid(&id), &replay) else { return };
+    ctx.cover(&("key", name, idx, "primary"));
+    ctx.seen("versions", format!("v{}", rprim.version));
+    ctx.seen("algorithms", format!("{}", rprim.alg));
+    ctx.seen("body_len_class", body_len_class(prim_body.len()));
+    let ref_fp = rprim.fingerprint();
+    let ref_id = rprim.key_id();
+
+    let mut reps: Vec<(&str, Vec<u8>, Vec<u8>)> = vec![
+        ("public-primary", publ.primary_key.fingerprint().as_bytes().to_vec(), kid(&publ.primary_key.legacy_key_id())),
+        ("signed-secret", key.fingerprint().as_bytes().to_vec(), kid(&key.legacy_key_id())),
+        ("signed-public", publ.fingerprint().as_bytes().to_vec(), kid(&publ.legacy_key_id())),
+    ];
+    // re-parsed copies
+    if let Ok(b) = key.to_bytes() {
+        if let Ok(k2) = SignedSecretKey::from_bytes(&b[..]) {
+            reps.push(("reparsed-secret", k2.fingerprint().as_bytes().to_vec(), kid(&k2.legacy_key_id())));
+        } else {
+            ctx.violation("C13/reparse-failed/secret", "own export does not parse", replay.clone());
+        }
+    }
+    if let Ok(s) = publ.to_armored_string(ArmorOptions::default()) {
+        if let Ok((p2, _)) = SignedPublicKey::from_string(&s) {
+            reps.push(("reparsed-public-armored", p2.fingerprint().as_bytes().to_vec(), kid(&p2.legacy_key_id())));
+        } else {
+            ctx.violation("C13/reparse-failed/public", "own armored export does not parse", replay.clone());
+        }
+    }
+    for (what, f, i) in &reps {
+        ctx.eval();
+        if f != &ref_fp || i[..] != ref_id[..] {
+            ctx.violation(
+                format!("C13/representation-differs/{what}"),
+                format!("{what}: fp {} id {} vs reference fp {} id {}", hex::encode(f), hex::encode(i), hex::encode(&ref_fp), hex::encode(ref_id)),
+                replay.clone(),
+            );
+        }
+    }
+
+    // subkeys
+    let mut sub_refs = vec![];
+    for (si, sk) in key.secret_subkeys.iter().enumerate() {
+        let body = sk.key.public_key().to_bytes().unwrap_or_default();
+        let f = sk.key.fingerprint();
+        let i = sk.key.legacy_key_id();
+        if let Some(rs) = check_one(ctx, "secret-subkey", &body, f.as_bytes(), &kid(&i), &replay) {
+            ctx.cover(&("key", name, idx, "sub", si));
+            ctx.seen("algorithms", format!("{}", rs.alg));
+            if let Some(ps) = publ.public_subkeys.get(si) {
+                ctx.eval();
+                if ps.key.fingerprint().as_bytes() != rs.fingerprint() || kid(&ps.key.legacy_key_id())[..] != rs.key_id()[..] {
+                    ctx.violation("C13/representation-differs/public-subkey", "public subkey fp/id differs from reference", replay.clone());
+                }
+            }
+            sub_refs.push(rs);
+        }
+    }
+
+    // the exported certificate, deframed by the reference: key packets hash to the same values
+    if let Ok(b) = publ.to_bytes() {
+        if let Ok(pk) = deframe(&b) {
+            for p in pk.iter().filter(|p| p.tag == 6 || p.tag == 14) {
+                if let Some((r, _)) = RefPub::parse_prefix(&p.body) {
+                    ctx.eval();
+                    let known = r.fingerprint() == ref_fp || sub_refs.iter().any(|s| s.fingerprint() == r.fingerprint());
+                    if !known {
+                        ctx.violation("C13/export-changes-fingerprint", "a key packet in the exported certificate hashes to an unknown fingerprint", replay.clone());
+                    }
+                }
+            }
+            // issuer subpackets of the self signatures
+            for p in pk.iter().filter(|p| p.tag == 2) {
+                check_issuer_subpackets(ctx, &p.body, &ref_fp, &ref_id, rprim.version, "self-signature", &replay);
+            }
+        }
+    }
+
+    if !with_messages {
+        return;
+    }
+    // ---- embedded ids in artefacts made by the library
+    let mut rng = ctx.rng("emb", idx);
+    // detached signature with default subpackets
+    if let Some(Ok(sig)) = ctx.guarded("C13/sign", || replay.clone(), || {
+        DetachedSignature::sign_binary_data(&mut rng, &key.primary_key, &Password::empty(), HashAlgorithm::Sha256, &b"hello"[..])
+    }) {
+        if let Ok(b) = sig.signature.to_bytes() {
+            check_issuer_subpackets(ctx, &b, &ref_fp, &ref_id, rprim.version, "detached", &replay);
+        }
+    }
+    // one pass signed message
+    let mut b = MessageBuilder::from_bytes("", &b"hello"[..]);
+    b.sign(&key.primary_key, Password::empty(), HashAlgorithm::Sha256);
+    if let Some(Ok(bytes)) = ctx.guarded("C13/msg", || replay.clone(), || b.to_vec(&mut rng)) {
+        if let Ok(pk) = deframe(&bytes) {
+            for p in &pk {
+                if p.tag == 4 {
+                    if let Ok(ops) = rfc::sig::parse_ops(&p.body) {
+                        ctx.eval();
+                        ctx.seen("embedded", format!("ops-v{}", ops.version));
+                        let want: &[u8] = if ops.version == 6 { &ref_fp } else { &ref_id };
+                        if ops.issuer != want {
+                            ctx.violation(
+                                format!("C13/embedded/ops-v{}", ops.version),
+                                format!("OPS issuer {} differs from reference {}", hex::encode(&ops.issuer), hex::encode(want)),
+                                replay.clone(),
+                            );
+                        }
+                    }
+                }
+                if p.tag == 2 {
+                    check_issuer_subpackets(ctx, &p.body, &ref_fp, &ref_id, rprim.version, "inline", &replay);
+                }
+            }
+        }
+    }
+    // PKESK recipient field
+    for (si, sk) in key.secret_subkeys.iter().enumerate() {
+        let Some(rs) = sub_refs.get(si) else { continue };
+        if !matches!(rs.alg, 1 | 18 | 25 | 26) {
+            continue;
+        }
+        let pubsub = &publ.public_subkeys[si];
+        let _ = sk;
+        for v2 in [false, true] {
+            if v2 && rs.version != 6 {
+                continue; // the builder only makes v6 PKESK for v6 keys
+            }
+            let res = ctx.guarded("C13/encrypt", || replay.clone(), || {
+                if v2 {
+                    let mut b = MessageBuilder::from_bytes("", &b"hi"[..]).seipd_v2(
+                        &mut rng,
+                        SymmetricKeyAlgorithm::AES128,
+                        pgp::crypto::aead::AeadAlgorithm::Ocb,
+                        pgp::crypto::aead::ChunkSize::C64B,
+                    );
+                    b.encrypt_to_key(&mut rng, &pubsub.key).map(|_| ())?;
+                    b.to_vec(&mut rng)
+                } else {
+                    let mut b = MessageBuilder::from_bytes("", &b"hi"[..]).seipd_v1(&mut rng, SymmetricKeyAlgorithm::AES128);
+                    b.encrypt_to_key(&mut rng, &pubsub.key).map(|_| ())?;
+                    b.to_vec(&mut rng)
+                }
+            });
+            let Some(Ok(bytes)) = res else { continue };
+            let Ok(pk) = deframe(&bytes) else { continue };
+            for p in pk.iter().filter(|p| p.tag == 1) {
+                ctx.eval();
+                match p.body.first() {
+                    Some(3) => {
+                        ctx.seen("embedded", "pkesk-v3");
+                        if p.body.len() < 9 || p.body[1..9] != rs.key_id()[..] {
+                            ctx.violation("C13/embedded/pkesk-v3", format!("PKESK v3 key id {} differs from reference {}", hex::encode(&p.body[1..9.min(p.body.len())]), hex::encode(rs.key_id())), replay.clone());
+                        }
+                    }
+                    Some(6) => {
+                        ctx.seen("embedded", "pkesk-v6");
+                        let l = *p.body.get(1).unwrap_or(&0) as usize;
+                        let field = p.body.get(2..2 + l).unwrap_or(&[]);
+                        let mut want = vec![rs.version];
+                        want.extend(rs.fingerprint());
+                        if field != &want[..] {
+                            ctx.violation("C13/embedded/pkesk-v6", format!("PKESK v6 recipient {} differs from reference {}", hex::encode(field), hex::encode(&want)), replay.clone());
+                        }
+                    }
+                    _ => {}
+                }
+            }
+            // and the message must be decryptable by that key (the id is the right one)
+            let ok = match Message::from_bytes(&bytes[..]) {
+                Ok(m) => match m.decrypt(&Password::empty(), key) {
+                    Ok(mut d) => {
+                        let mut out = vec![];
+                        d.read_to_end(&mut out).is_ok() && out == b"hi"
+                    }
+                    Err(_) => false,
+                },
+                Err(_) => false,
+            };
+            ctx.eval();
+            if !ok {
+                ctx.violation("C13/embedded/recipient-cannot-decrypt", "message addressed by the library to this key is not decryptable with it", replay.clone());
+            }
+        }
+    }
+}
+
+fn check_issuer_subpackets(ctx: &mut Ctx, sig_body: &[u8], ref_fp: &[u8], ref_id: &[u8; 8], key_version: u8, what: &str, replay: &serde_json::Value) {
+    let Ok(s) = rfc::sig::parse_sig(sig_body) else { return };
+    for (area, name) in [(&s.hashed, "hashed"), (&s.unhashed, "unhashed")] {
+        let Ok(sps) = rfc::sig::parse_subpackets(area) else { continue };
+        for sp in sps {
+            match sp.typ {
+                16 => {
+                    ctx.eval();
+                    ctx.seen("embedded", "issuer-keyid");
+                    if sp.body != ref_id {
+                        ctx.violation(
+                            format!("C13/embedded/issuer-keyid/{what}"),
+                            format!("issuer key id subpacket ({name}) {} != reference {}", hex::encode(&sp.body), hex::encode(ref_id)),
+                            replay.clone(),
+                        );
+                    }
+                }
+                33 => {
+                    ctx.eval();
+                    ctx.seen("embedded", format!("issuer-fp-v{key_version}"));
+                    let mut want = vec![key_version];
+                    want.extend_from_slice(ref_fp);
+                    if sp.body != want {
+                        ctx.violation(
+                            format!("C13/embedded/issuer-fingerprint/{what}"),
+                            format!("issuer fingerprint subpacket ({name}) {} != reference {}", hex::encode(&sp.body), hex::encode(&want)),
+                            replay.clone(),
+                        );
+                    }
+                }
+                _ => {}
+            }
+        }
+    }
+}
 
 pub fn run(ctx: &mut Ctx) {
-    ctx.inconclusive("monitor not built yet");
+    // ------------------------------------------------------------------------------------
+    // Family A: library-generated certificates, many seeds per fast algorithm
+    let per_alg = ctx.qt(60u64, 1500u64);
+    let mut specs: Vec<Spec> = vec![];
+    for s in zoo::signer_specs(true) {
+        specs.push(s);
+    }
+    for s in zoo::encryptor_specs(true) {
+        specs.push(s);
+    }
+    let mut with_sign_sub = Spec::simple(false, Alg::Ed25519Legacy, Some(Alg::EcdhP256));
+    with_sign_sub.sign_sub = Some(Alg::EcdsaP384);
+    specs.push(with_sign_sub);
+    let mut v6_two = Spec::simple(true, Alg::Ed448, Some(Alg::X448));
+    v6_two.sign_sub = Some(Alg::Ed25519);
+    v6_two.uids = 3;
+    specs.push(v6_two);
+
+    for spec in &specs {
+        let slow = spec.primary.is_slow() || spec.enc_sub.as_ref().is_some_and(|a| a.is_slow());
+        let n = if slow { ctx.qt(1, 3) } else { per_alg };
+        for i in 0..n {
+            if !ctx.mine() {
+                continue;
+            }
+            crate::core::describe_case(&format!("A:{}", spec.name()));
+            let key = if slow {
+                zoo::key(spec, i)
+            } else {
+                let mut s2 = spec.clone();
+                let mut rng = ctx.rng(&format!("A-{}", spec.name()), i);
+                s2.created = rng.gen_range(1u32..0xFFFF_FFF0);
+                match zoo::generate(&s2, &mut rng) {
+                    Ok(k) => k,
+                    Err(e) => {
+                        ctx.inconclusive(format!("generate {}: {e}", spec.name()));
+                        continue;
+                    }
+                }
+            };
+            check_cert(ctx, &key, &spec.name(), i < 12 || slow, i);
+            if i == 0 && ctx.samples.len() < 3 {
+                ctx.sample(json!({"family": "A", "spec": spec.name(), "fingerprint": hex::encode(key.fingerprint().as_bytes()), "key_id": hex::encode(key.legacy_key_id().as_ref())}));
+            }
+        }
+    }
+
+    // ------------------------------------------------------------------------------------
+    // Family B: reference-encoded public keys (fields chosen by the harness): the library must
+    // report the reference hash for whatever it accepts. v3 RSA, v4/v6 RSA with odd bit lengths,
+    // DSA/ElGamal shaped MPIs, native 25519/448 material, unknown algorithms with opaque material
+    // (bodies > 255 and, for v6, > 65535 octets).
+    let nb = ctx.qt(600u64, 20000u64);
+    for i in 0..nb {
+        if !ctx.mine() {
+            continue;
+        }
+        let mut rng = ctx.rng("B", i);
+        let kind = i % 12;
+        let created: u32 = rng.gen();
+        let mut rnd_mpi = |rng: &mut rand_chacha::ChaCha8Rng, bits: usize| -> Vec<u8> {
+            let bytes = bits.div_ceil(8).max(1);
+            let mut v = vec![0u8; bytes];
+            rng.fill_bytes(&mut v);
+            let top = bits % 8;
+            if top != 0 {
+                v[0] &= (1u8 << top) - 1;
+                v[0] |= 1 << (top - 1);
+            } else {
+                v[0] |= 0x80;
+            }
+            rfc::mpi(&v)
+        };
+        let (version, alg, material, label): (u8, u8, Vec<u8>, &str) = match kind {
+            0 => {
+                let mut m = rnd_mpi(&mut rng, 2048 - (i as usize % 9));
+                let last = m.len() - 1;
+                m[last] |= 1;
+                m.extend(rfc::mpi(&[1, 0, 1]));
+                (3, 1, m, "v3-rsa")
+            }
+            1 => {
+                let mut m = rnd_mpi(&mut rng, 1024 + (i as usize % 17));
+                let last = m.len() - 1;
+                m[last] |= 1;
+                m.extend(rfc::mpi(&[1, 0, 1]));
+                (4, 1, m, "v4-rsa")
+            }
+            2 => {
+                let mut m = rnd_mpi(&mut rng, 3072);
+                let last = m.len() - 1;
+                m[last] |= 1;
+                m.extend(rfc::mpi(&[3]));
+                (6, 1, m, "v6-rsa")
+            }
+            3 => {
+                let mut m = vec![];
+                for b in [1024usize, 160, 1023, 1020] {
+                    m.extend(rnd_mpi(&mut rng, b));
+                }
+                (4, 17, m, "v4-dsa")
+            }
+            4 => {
+                let mut m = vec![];
+                for b in [1024usize, 2, 1019] {
+                    m.extend(rnd_mpi(&mut rng, b));
+                }
+                (4, 16, m, "v4-elgamal")
+            }
+            5 => {
+                let mut m = vec![0u8; 32];
+                rng.fill_bytes(&mut m);
+                (if i % 24 < 12 { 4 } else { 6 }, 27, m, "ed25519")
+            }
+            6 => {
+                let mut m = vec![0u8; 32];
+                rng.fill_bytes(&mut m);
+                (if i % 24 < 12 { 4 } else { 6 }, 25, m, "x25519")
+            }
+            7 => {
+                let mut m = vec![0u8; 56];
+                rng.fill_bytes(&mut m);
+                (6, 26, m, "x448")
+            }
+            8 => {
+                let mut m = vec![0u8; 57];
+                rng.fill_bytes(&mut m);
+                (6, 28, m, "ed448")
+            }
+            9 => {
+                // unknown algorithm, v6, opaque material of various sizes (incl. > 65535)
+                let len = [0usize, 1, 250, 300, 65530, 65536, 70000][(i / 12 % 7) as usize];
+                let mut m = vec![0u8; len];
+                rng.fill_bytes(&mut m);
+                (6, 99, m, "v6-unknown")
+            }
+            10 => {
+                // EdDSA legacy with a random "point" 0x40||32 bytes
+                let mut p = vec![0x40u8];
+                let mut r = vec![0u8; 32];
+                rng.fill_bytes(&mut r);
+                p.extend(r);
+                let mut m = vec![rfc::key::OID_ED25519.len() as u8];
+                m.extend(rfc::key::OID_ED25519);
+                m.extend(rfc::mpi(&p));
+                (4, 22, m, "v4-eddsa-legacy")
+            }
+            _ => {
+                // ECDH curve25519 legacy
+                let mut p = vec![0x40u8];
+                let mut r = vec![0u8; 32];
+                rng.fill_bytes(&mut r);
+                p.extend(r);
+                let mut m = vec![rfc::key::OID_CV25519.len() as u8];
+                m.extend(rfc::key::OID_CV25519);
+                m.extend(rfc::mpi(&p));
+                m.extend([3, 1, 8, 7]);
+                (4, 18, m, "v4-ecdh-cv25519")
+            }
+        };
+        let rp = RefPub { version, created, v3_expiry_days: (i % 400) as u16, alg, material };
+        let body = rp.encode();
+        let is_sub = i % 3 == 0 && version != 3;
+        let replay = json!({"family": "B", "label": label, "body": hexs(&body), "subkey": is_sub});
+        crate::core::describe_case(&format!("B:{label}"));
+        let hdr = PacketHeader::new_fixed(if is_sub { Tag::PublicSubkey } else { Tag::PublicKey }, body.len() as u32);
+        let parsed: Option<Result<(Vec<u8>, Vec<u8>, Vec<u8>), String>> = ctx.guarded("C13/B", || replay.clone(), || {
+            if is_sub {
+                PublicSubkey::try_from_reader(hdr, &body[..]).map_err(|e| e.to_string()).map(|k| {
+                    (k.fingerprint().as_bytes().to_vec(), kid(&k.legacy_key_id()), k.to_bytes().unwrap_or_default())
+                })
+            } else {
+                PublicKey::try_from_reader(hdr, &body[..]).map_err(|e| e.to_string()).map(|k| {
+                    (k.fingerprint().as_bytes().to_vec(), kid(&k.legacy_key_id()), k.to_bytes().unwrap_or_default())
+                })
+            }
+        });
+        ctx.eval();
+        match parsed {
+            None => {}
+            Some(Err(_)) => ctx.tally(&format!("B.rejected.{label}"), 1),
+            Some(Ok((fp, id, reser))) => {
+                ctx.tally(&format!("B.accepted.{label}"), 1);
+                ctx.cover(&("B", label, i));
+                ctx.seen("versions", format!("v{version}"));
+                ctx.seen("body_len_class", body_len_class(body.len()));
+                if fp != rp.fingerprint() {
+                    ctx.violation(
+                        format!("C13/fingerprint-mismatch/v{version}/wire-{label}"),
+                        format!("fingerprint() = {} but RFC hash of the wire body = {}", hex::encode(&fp), hex::encode(rp.fingerprint())),
+                        replay.clone(),
+                    );
+                }
+                if id[..] != rp.key_id()[..] {
+                    ctx.violation(
+                        format!("C13/keyid-mismatch/v{version}/wire-{label}"),
+                        format!("legacy_key_id() = {} but RFC key id = {}", hex::encode(&id), hex::encode(rp.key_id())),
+                        replay.clone(),
+                    );
+                }
+                if reser != body {
+                    ctx.violation(
+                        format!("C13/reserialise-differs/wire-{label}"),
+                        "canonical wire body is not re-serialised identically (so a re-exported key would hash differently)",
+                        replay.clone(),
+                    );
+                }
+                // through the packet parser with every framing: same fingerprint
+                if i % 7 == 0 {
+                    let tag = if is_sub { 14 } else { 6 };
+                    for form in [LenForm::NewMin, LenForm::New5, LenForm::Old2, LenForm::Old4] {
+                        if let Some(f) = frame(tag, &body, &form) {
+                            let pk: Vec<_> = pgp::packet::PacketParser::new(&f[..]).collect();
+                            ctx.eval();
+                            let ok = pk.len() == 1
+                                && match &pk[0] {
+                                    Ok(pgp::packet::Packet::PublicKey(k)) => k.fingerprint().as_bytes() == fp,
+                                    Ok(pgp::packet::Packet::PublicSubkey(k)) => k.fingerprint().as_bytes() == fp,
+                                    _ => false,
+                                };
+                            if !ok {
+                                ctx.violation(format!("C13/framing-changes-fingerprint/{label}"), format!("key framed as {form:?} parsed differently"), replay.clone());
+                            }
+                        }
+                    }
+                }
+                if i < 24 {
+                    ctx.sample(json!({"family": "B", "label": label, "version": version, "body_len": body.len(), "fingerprint": hex::encode(&fp), "key_id": hex::encode(&id)}));
+                }
+            }
+        }
+    }
+
+    // ------------------------------------------------------------------------------------
+    // Family C: key fixtures of the repository (read-only): parse with the library, compare
+    // with the reference view of the same wire bytes.
+    let mut files: Vec<std::path::PathBuf> = vec![];
+    collect_key_files(std::path::Path::new("/repo/tests"), &mut files, 0);
+    files.sort();
+    for (fi, f) in files.iter().enumerate() {
+        if !ctx.mine() {
+            continue;
+        }
+        let Ok(data) = std::fs::read(f) else { continue };
+        if data.len() > 300_000 {
+            continue;
+        }
+        crate::core::describe_case(&format!("C:{}", f.display()));
+        // dearmor with the library if armored, else raw
+        let bin: Vec<u8> = if data.starts_with(b"-----BEGIN") || data.windows(10).take(200).any(|w| w == b"-----BEGIN") {
+            let mut d = pgp::armor::Dearmor::new(std::io::BufReader::new(&data[..]));
+            let mut out = vec![];
+            if ctx.guarded("C13/C/dearmor", || json!({"file": f.display().to_string()}), || d.read_to_end(&mut out).is_ok()) != Some(true) {
+                continue;
+            }
+            out
+        } else {
+            data.clone()
+        };
+        let Ok(raw) = deframe(&bin) else { continue };
+        let replay = json!({"family": "C", "file": f.display().to_string()});
+        let parsed: Vec<_> = match ctx.guarded("C13/C/parse", || replay.clone(), || pgp::packet::PacketParser::new(&bin[..]).collect::<Vec<_>>()) {
+            Some(p) => p,
+            None => continue,
+        };
+        if parsed.len() != raw.len() {
+            continue;
+        }
+        for (rp, lp) in raw.iter().zip(parsed.iter()) {
+            let Ok(lp) = lp else { continue };
+            let (fp, id): (Vec<u8>, Vec<u8>) = match lp {
+                pgp::packet::Packet::PublicKey(k) => (k.fingerprint().as_bytes().to_vec(), kid(&k.legacy_key_id())),
+                pgp::packet::Packet::PublicSubkey(k) => (k.fingerprint().as_bytes().to_vec(), kid(&k.legacy_key_id())),
+                pgp::packet::Packet::SecretKey(k) => (k.fingerprint().as_bytes().to_vec(), kid(&k.legacy_key_id())),
+                pgp::packet::Packet::SecretSubkey(k) => (k.fingerprint().as_bytes().to_vec(), kid(&k.legacy_key_id())),
+                _ => continue,
+            };
+            let Some((r, _)) = RefPub::parse_prefix(&rp.body) else {
+                ctx.tally("C.reference-cannot-parse", 1);
+                continue;
+            };
+            // only canonical MPI encodings are judged: the library normalises non-canonical MPIs
+            ctx.eval();
+            ctx.cover(&("C", fi, rp.offset));
+            ctx.seen("versions", format!("v{}", r.version));
+            ctx.seen("algorithms", format!("{}", r.alg));
+            if fp != r.fingerprint() || id[..] != r.key_id()[..] {
+                let canon = canonical_material(&r);
+                ctx.violation(
+                    format!("C13/fixture/fingerprint-or-keyid-mismatch/v{}/{}", r.version, if canon { "canonical" } else { "noncanonical-mpi" }),
+                    format!("{}: library fp {} id {} vs reference fp {} id {}", f.display(), hex::encode(&fp), hex::encode(&id), hex::encode(r.fingerprint()), hex::encode(r.key_id())),
+                    replay.clone(),
+                );
+            }
+        }
+    }
+}
+
+/// true if every MPI of the (known-layout) material is canonically encoded
+fn canonical_material(r: &RefPub) -> bool {
+    let n = match r.alg {
+        1 | 2 | 3 => 2,
+        16 => 3,
+        17 => 4,
+        _ => return true,
+    };
+    let mut p = 0;
+    for _ in 0..n {
+        let Some((v, np)) = rfc::read_mpi(&r.material, p) else { return false };
+        let bits = u16::from_be_bytes([r.material[p], r.material[p + 1]]) as usize;
+        let real = if v.is_empty() { 0 } else { v.len() * 8 - v[0].leading_zeros() as usize };
+        if bits != real {
+            return false;
+        }
+        p = np;
+    }
+    true
+}
+
+fn collect_key_files(dir: &std::path::Path, out: &mut Vec<std::path::PathBuf>, depth: usize) {
+    if depth > 6 || out.len() > 1500 {
+        return;
+    }
+    let Ok(rd) = std::fs::read_dir(dir) else { return };
+    let mut entries: Vec<_> = rd.flatten().map(|e| e.path()).collect();
+    entries.sort();
+    for p in entries {
+        if p.is_dir() {
+            collect_key_files(&p, out, depth + 1);
+        } else if let Some(ext) = p.extension().and_then(|e| e.to_str()) {
+            if matches!(ext, "asc" | "key" | "pub" | "sec" | "gpg" | "pgp" | "cert" | "tsk") {
+                out.push(p);
+            }
+        }
+    }
 }
